@@ -21,7 +21,8 @@ RULE = ("tables with 1-3 snapshots and 1-4 data files in the current one (local 
         "(delete; truncate to 0 / 3 / 10 / 25% / 50% / start of footer / len-8 / len-1 bytes; whole-file noise; single "
         "byte flips at 7 positions; content swapped with a sibling of the same kind) every read API and option is "
         "run through a fresh handle: scan, scan(parallel=2), scan_batches(1|3|1000), iter_records, row_count, column "
-        "projection, filter, verify_checksums True / False / env-off. Separately, an exception is injected at each "
+        "projection, filter, verify_checksums True / False / env-off - once through fresh handles and once through ONE "
+        "long-lived handle that had read the table before the damage. Separately, an exception is injected at each "
         "storage read call of each API (S3: transient burst within the 6-attempt budget must be masked, beyond it and "
         "permanent codes must raise; local: OSError must raise). quick samples (file, damage) pairs, thorough sweeps "
         "all. One evaluation = one (table, file, damage, API). Oracle: exception, or exactly the undamaged answer and "
@@ -166,7 +167,7 @@ def execute(plan: dict, scratch: str, replay: Optional[dict] = None) -> dict:
     cases = plan.get("cases")
     if cases is None:
         if plan["mode"] == "damage":
-            cases = [["damage", kind, rel, how] for (kind, rel) in files for how in DAMAGES]
+            cases = [["damage", kind, rel, how, wm] for (kind, rel) in files for how in DAMAGES for wm in (0, 1)]
         else:
             excs = ([["EIO", 1]] if backend == "local" else [["InternalError", 2], ["InternalError", 7],
                                                               ["AccessDenied", 1], ["SlowDown", 4]])
@@ -185,12 +186,21 @@ def execute(plan: dict, scratch: str, replay: Optional[dict] = None) -> dict:
     return res
 
 
-def _run_reads(ph: Phase, apis: List[dict]) -> List[dict]:
+def _run_reads(ph: Phase, apis: List[dict], warm_then=None) -> List[dict]:
+    """warm_then: callable applied AFTER a long-lived handle has read the table once; all reads then go
+    through that same handle (caches of a long-lived Table object are in play)."""
     w, sim = ph.world, ph.sim
     out: List[dict] = []
 
     def body():
         import datashard
+        shared = None
+        if warm_then is not None:
+            shared = datashard.load_table(w.table_path)
+            shared.scan()
+            list(shared.scan_batches(batch_size=2))
+            shared.row_count()
+            warm_then()
         for op in apis:
             rec: Dict[str, Any] = {"op": op}
             out.append(rec)
@@ -198,7 +208,7 @@ def _run_reads(ph: Phase, apis: List[dict]) -> List[dict]:
             try:
                 if op.get("env_verify_off"):
                     os.environ["DATASHARD_VERIFY_CHECKSUMS"] = "false"
-                t = datashard.load_table(w.table_path)
+                t = shared if shared is not None else datashard.load_table(w.table_path)
                 if op["api"] == "row_count":
                     rec["count"] = t.row_count()
                 else:
@@ -242,7 +252,7 @@ def _want(rows: tuple, op: dict) -> tuple:
 
 
 def _damage_case(plan, scratch, seed, snap, st, rows, count, case) -> dict:
-    _m, kind, rel, how = case
+    _m, kind, rel, how = case[:4]
     backend = plan["backend"]
     store = snap.restore()
     ph = Phase(plan, scratch, backend, seed ^ 0xD, core.Policy(), start=snap.now + 1.0, store=store, max_steps=60000)
@@ -261,9 +271,14 @@ def _damage_case(plan, scratch, seed, snap, st, rows, count, case) -> dict:
     if new == data:
         sim.outcome = "ok"
         return common.assemble(ph, [], False, cfg)
-    _apply(w, rel, new)
+    warm = bool(case[4]) if len(case) > 4 else False
     parses = _parses(kind, new)
-    recs = _run_reads(ph, APIS)
+    if warm:
+        cfg += "/warm-handle"
+        recs = _run_reads(ph, APIS, warm_then=lambda: _apply(w, rel, new))
+    else:
+        _apply(w, rel, new)
+        recs = _run_reads(ph, APIS)
     V: List[dict] = []
     if sim.outcome != "ok":
         return common.assemble(ph, [], False, cfg)
